@@ -247,9 +247,10 @@ def rule_nldf(chk, cx):
     pair = lambda a, b: Tup([num(a), num(b)])  # noqa: E731
     for level in ("MGGA", "GGA"):
         th = lst(*[sym("th%d" % i) for i in range(3 if level == "MGGA" else 2)])
-        st = s.new(ST, "NLDFSettingsVIJ", K(level), th, K("one"), KS(["se", "se_r2"]), KS(["se_grad", "se_rvec"]),
-                   lst(pair(-1, 0), pair(0, 1), pair(-1, -1)), KS(["se", "se_ar2"]), lst(th, th))
-        n_l0 = 2
+        # counts differ from each other: 3 l=0 specs, 2 l=1 specs, 4 dots, 1 version-j feature
+        st = s.new(ST, "NLDFSettingsVIJ", K(level), th, K("one"), KS(["se_r2", "se", "se_ap"]), KS(["se_rvec", "se_grad"]),
+                   lst(pair(-1, 1), pair(1, 0), pair(-1, -1), pair(0, 0)), KS(["se_ar2"]), lst(th))
+        n_l0, num_vj, n_dots = 3, 1, 4
         # the plan's bookkeeping attributes come from its own (abstractly executed) constructor
         plan = s.new(PL, "NLDFAuxiliaryPlan", st, NSPIN, q(), sym("lambd"), sym("nalpha"), coef_order=K("qg"))
         if not isinstance(plan, deg.Obj):
@@ -269,7 +270,7 @@ def rule_nldf(chk, cx):
             continue
         feat = vals[0]
         ln = fline(s, PL, "NLDFAuxiliaryPlan.eval_rho_full")
-        if len(feat.rows) < 7:
+        if len(feat.rows) < num_vj + n_l0 + n_dots:
             raise core.AnalysisError("%s.eval_rho_full: only rows %s were written" % (where, sorted(feat.rows)))
         for k in sorted(feat.rows):
             r = feat.rows[k]
@@ -285,7 +286,7 @@ def rule_nldf(chk, cx):
         vf_typed = q(e=1, c=-1)
         vf_typed.homog = True      # every row of vf is a derivative w.r.t. a per-spin convolution integral
         bw = s.call(plan, "eval_vxc_full", [vfeat, vrho, q(c=1), rho_data],
-                    {"spin": num(0), "vf": vf_typed, "p_i_qg": lst(q(), q())})
+                    {"spin": num(0), "vf": vf_typed, "p_i_qg": lst(*[q() for _ in range(num_vj)])})
         cx.flush(bw, where + ".eval_vxc_full", "pair")
         ln = fline(s, PL, "NLDFAuxiliaryPlan.eval_vxc_full")
         cx.want("pair", bw, where + ".eval_vxc_full", bw.value, "N", 0, "vf (derivative w.r.t. the convolutions)", PL,
@@ -300,7 +301,6 @@ def rule_nldf(chk, cx):
         cx.flush(oc, where + ".eval_occd_full", "pair")
         ov = oc.value
         if isinstance(ov, Q) and ov.is_rows:
-            num_vj = 2
             for k in sorted(feat.rows):
                 if comp(feat.rows[k], "N") is None or k not in ov.rows:
                     continue
@@ -337,11 +337,11 @@ def rule_sdmx(chk, cx):
             classes.append(c.name)
     if len(classes) < 3:
         raise core.AnalysisError("fewer than three SDMX-like plan classes define get_features/get_vxc (%s)" % classes)
-    pows = lambda: lst(num(0), num(1), num(2))  # noqa: E731
-    kinds = lambda: lst(num(2), num(1), num(1), num(1))  # noqa: E731
+    pows = lambda: lst(num(2), num(0), num(1))  # noqa: E731   (values never equal their index)
+    kinds = lambda: lst(num(3), num(1), num(2), num(1))  # noqa: E731
     cfg = {
         "SADMPlan": lambda: s.new(ST, "SADMSettings", K("smooth")),
-        "SDMXPlan": lambda: s.new(ST, "SDMXG1Settings", pows(), num(1), num(1)),
+        "SDMXPlan": lambda: s.new(ST, "SDMXG1Settings", pows(), num(2), num(1)),
         "SDMXFullPlan": lambda: s.new(ST, "SDMXFullSettings", Map({Fraction(1): Tup([pows(), kinds()]),
                                                                     Fraction(2): Tup([pows(), kinds()])})),
         "SDMXIntPlan": lambda: s.new(ST, "SDMXFullSettings", Map({Fraction(1): Tup([pows(), kinds()])})),
